@@ -41,6 +41,15 @@ func runC16(c *Ctx) {
 
 	c.c16Typestate()
 	c.c16HeartBeatOutlivesTheAcquire()
+	// Y20: "a Fetch that reports success installs one complete version previously passed to Store, never a partial tree".
+	// Both caches archive the tree with fs.Zip…: the walker of the archiving function writes a header for every entry it is
+	// handed before it returns successfully, and copies the whole content of the path it opened (the obligation C07/Z1) —
+	// an entry passed over on other grounds (a kind of file the walker decides not to look at: a symbolic link is not
+	// 'regular' either) is missing from every version stored from then on.
+	c.rule("Y20", "the zip walker Store archives with gives every walked entry a header, under its relative name, with the whole content of the opened path (the obligation C07/Z1)", 5)
+	c.ruleAlias = map[string]string{"Z1": "Y20", "Z9": "Y20"}
+	c.c07ZipWalker()
+	c.ruleAlias = nil
 	c.c16Immutable()
 	c.c16Transfer()
 	c.c16ErrorKept()
